@@ -39,7 +39,26 @@ func H_C09_get() {
 	assert(int(m.VBucketRangeStart) == start && int(m.VBucketRangeEnd) == start+size-1 && m.MemberNumber == k && m.TotalMembers == T && m.VBucketCount == N,
 		"range / member figures exposed for metrics are the ones in effect")
 	cover("get")
+	// a rebalance that keeps the group size but moves this member: the exposed figures follow
+	k2 := nondetInt("member2")
+	assume(k2 >= 1 && k2 <= T)
+	d.(*vBucketDiscovery).membership = &vFixedMembership{info: &membership.Model{MemberNumber: k2, TotalMembers: T}}
+	ids2 := d.Get()
+	start2 := (k2-1)*base + vMinInt(k2-1, extra)
+	size2 := base
+	if k2-1 < extra {
+		size2++
+	}
+	assert(len(ids2) == size2 && int(ids2[0]) == start2, "after the move member k2 owns the k2-th range")
+	m2 := d.GetMetric()
+	assert(m2.MemberNumber == k2 && m2.TotalMembers == T && int(m2.VBucketRangeStart) == start2 && int(m2.VBucketRangeEnd) == start2+size2-1,
+		"member number / range figures follow a rebalance that keeps the group size")
 }
+
+type vFixedMembership struct{ info *membership.Model }
+
+func (f *vFixedMembership) GetInfo() *membership.Model { return f.info }
+func (f *vFixedMembership) Close()                     {}
 
 func vMinInt(a, b int) int {
 	if a < b {
